@@ -250,6 +250,8 @@ impl Boudot2000RangeProof {
         let mut D_2 = Integer::from(0);
 
         while boolean {
+            #[cfg(zkryptium_verif)]
+            crate::verif_hooks::tick("retry:range_proof_large_interval");
             let w = rand_int(
                 Integer::from(0),
                 (Integer::from(2).pow(T) * Integer::from(2).pow(t + l)) * b - Integer::from(1),
@@ -368,6 +370,8 @@ impl Boudot2000RangeProof {
         let mut r_a_1 = Integer::from(1);
         let mut r_a_2 = Integer::from(1);
         while boolean {
+            #[cfg(zkryptium_verif)]
+            crate::verif_hooks::tick("retry:range_proof_split_r_a");
             r_a_1 = rand_int(
                 -Integer::from(2).pow(s) * Integer::from(2).pow(T) * n + Integer::from(1),
                 Integer::from(2).pow(s) * Integer::from(2).pow(T) * n - Integer::from(1),
@@ -386,6 +390,8 @@ impl Boudot2000RangeProof {
 
         boolean = true;
         while boolean {
+            #[cfg(zkryptium_verif)]
+            crate::verif_hooks::tick("retry:range_proof_split_r_b");
             r_b_1 = rand_int(
                 -Integer::from(2).pow(s) * Integer::from(2).pow(T) * n + Integer::from(1),
                 Integer::from(2).pow(s) * Integer::from(2).pow(T) * n - Integer::from(1),
